@@ -29,7 +29,7 @@ ENZ = "BsaI"
 
 
 VARIANTS = ["cited", "plain", "cited-rotated", "plain-rotated", "cited-aligned", "plain-aligned", "cited-odd", "plain-odd",
-            "cited-odd-aligned", "plain-odd-aligned"]
+            "cited-odd-aligned", "plain-odd-aligned", "cited-seqrecord"]
 
 
 def bounds(tier):
@@ -39,7 +39,7 @@ def bounds(tier):
 
 def goals(tier):
     return ["op-product", "op-warning", "op-InvalidSequence", "op-DuplicateModules", "op-MissingModule", "op-injected-exception",
-            "cited-world", "rotated-world", "odd-world", "retry-after-failure", "origin-on-first-base-of-fragment", "op-UnusedModules"]
+            "cited-world", "rotated-world", "odd-world", "plain-seqrecord-world", "retry-after-failure", "origin-on-first-base-of-fragment", "op-UnusedModules"]
 
 
 # ---------------------------------------------------------------------------------------------
@@ -101,6 +101,11 @@ def build_world(variant):
             # a feature located on another sequence (GenBank `J00194.1:4..9`), and one with fuzzy ends
             r.features.append(SeqFeature(FeatureLocation(3, 9, strand=1, ref="J00194.1"), type="exon", id="remote-" + name, qualifiers={"label": ["remote"]}))
             r.features.append(gen.mk_feature([(1, 4, 1)], type="fuzzy_region", fid="fz-" + name))
+        if variant.endswith("seqrecord"):
+            # the same plasmids handed over as plain SeqRecords (whatever such a call does -- today it stops with an error --
+            # the caller's records must come back untouched)
+            from Bio.SeqRecord import SeqRecord as _SR
+            r = _SR(r.seq, id=r.id, name=r.name, description=r.description, features=r.features, annotations=r.annotations)
         if aligned:
             # modules: origin on the first base of the upstream overhang; vectors: on the first base of the downstream overhang
             r = r >> ((len(s) - t0) if not name.startswith("v") else (len(s) - (g.ov + len(base["vbb"]))))
@@ -294,6 +299,8 @@ def run_unit(unit, st, tier):
         st.goal("rotated-world")
     if "odd" in variant.split("-"):
         st.goal("odd-world")
+    if variant.endswith("seqrecord"):
+        st.goal("plain-seqrecord-world")
     if variant.endswith("aligned"):
         st.goal("origin-on-first-base-of-fragment")
     st.extra["distinct_input_snapshots_max"] = max(st.extra["distinct_input_snapshots_max"], len(allsnaps))
